@@ -99,9 +99,15 @@ class Fam:
         lines = ["def %s(%s) -> Any:" % (name, sig), "    # " + desc] + ["    " + b for b in body]
         self.funcs.append(dict(name=name, desc=desc, lines=lines))
         types = [t for _, t in params]
+        explosive = any(x in desc for x in ("**", "pow(", "<<"))   # a big right operand would not terminate
         for kind in (kinds or kinds_for(types)):
-            if inputs is not None:
-                combos = inputs
+            fixed = inputs
+            if explosive and kind == "int":
+                if "object" in types:
+                    continue
+                fixed = [("a", "3"), ("a", "0"), ("b", "-1"), ("5", "70"), ("0", "5")]
+            if fixed is not None:
+                combos = fixed
             else:
                 combos = pick(list(itertools.product(*[alphabet(t, kind, i == 0) for i, t in enumerate(types)])), cap)
             for args in combos:
@@ -379,8 +385,6 @@ def wrapper_family() -> Fam:
                     ("all", "(x: %s, *args: object, k: %s = %s, **kw: object)" % (a2, da, d2), "[x, args, k, kw]"),
                 ]
             for shape, sig, ret in shapes:
-                if (shape == "default" and da != a2 and t2 in ("native", "list")) and False:
-                    continue
                 name = "w%d" % n
                 n += 1
                 desc = "def f%s" % sig
